@@ -112,9 +112,9 @@ def tricky_cases(ctx):
         if not recogniser.accepts(t):
             ctx.notes.append("tricky corpus entry not accepted by the recogniser (skipped): " + t[:60])
             continue
-        envs = [{"u": rng.choice(["u1", 7]), "x": rng.choice([1, 2, 3, 4, 5, "abc", (1, 2), ((1, 2), (3,)), -1.5, 2.25, 123456789012345678901234567890]),
+        envs = [{"u": rng.choice(["u1", 7, "unit%d" % rng.randrange(99), rng.randrange(10 ** 6)]), "x": rng.choice([1, 2, 3, 4, 5, "abc", (1, 2), ((1, 2), (3,)), -1.5, 2.25, 123456789012345678901234567890]),
                  "y": rng.choice([1, 2, "b"]), "z": rng.choice([3, 4]), "order_id": 1, "index": 1, "not_active": 2, "android": 0, "elsewhere": 0,
-                 "inner": 0, "salty": 0} for _ in range(4)]
+                 "inner": 0, "salty": 0} for _ in range(8)]
         cases.append({"prog": None, "text": t, "envs": envs, "must_compile": True})
     return cases
 
